@@ -18,6 +18,7 @@ pub mod resolve;
 pub mod pipeline;
 pub mod frontend;
 pub mod backend;
+pub mod interop;
 pub mod cbor;
 pub mod ledger;
 
@@ -76,6 +77,7 @@ fn dispatch(case: &Value) -> Value {
         "pipeline" => pipeline::run(case),
         "frontend" => frontend::run(case),
         "backend" => backend::run(case),
+        "interop" => interop::run(case),
         "ping" => json!({"pong": true}),
         other => json!({"tool_error": format!("unknown cmd {other}")}),
     }
